@@ -22,18 +22,18 @@ def blocks_for(stem):
 
 class Check(HCheck):
     pid = ID
-    owned = ("page", "pages", "links", "crawl", "create", "addprefix", "rmprefix", "rule", "move")
+    owned = ("page", "pages", "links", "crawl", "create", "addprefix", "rmprefix", "rule", "move", "clear", "reopen")
     must_count = ("multiblock_stems", "exact_multiple_stems", "resubmissions", "links_nonzero", "metrics_compared")
 
     def spaces(self, tier):
         thorough = tier == "thorough"
-        lens1 = (75, 148, 149, 74, 3) if not thorough else (75, 148, 149, 74, 3, 223, 222, 76)
+        lens1 = (75, 148, 149, 74, 222, 3) if not thorough else (75, 148, 149, 74, 3, 223, 222, 76, 296)
         l1 = al.long_lrus(lens1)
         l2 = [l1[0] + L.long_stem(148, b"a"), l1[1] + L.long_stem(75, b"\xff")]
         ops = [al.page(u, i % 2 == 0) for i, u in enumerate(l1)]
         ops += [al.page(l2[0]), al.create(l2[1]), al.addprefix(l1[1], 0), al.rule(l1[0], "path2"), al.links((l1[2], l2[0]), (l1[2], l2[0])), al.crawl((l1[0], (l1[1], l1[0])))]
         sp = [Space(Cfg("never"), ops, 5 if thorough else 4, name="long/never")]
-        cops = [al.page(Ax), al.page(Ax, True), al.page(Axy), al.pages((Ab, Aw)), al.create(C1), al.create(Ax), al.addprefix(Az, 0), al.rmprefix(A + b"p:q|"), al.rmprefix(Ax), al.rule(Ax, "path2"), al.rule(A, "path1"), al.LB_REPEAT, al.CB_KNOWN, al.move(Ab, 0), al.delete(0)]
+        cops = [al.page(Ax), al.page(Ax, True), al.page(Axy), al.pages((Ab, Aw)), al.create(C1), al.create(Ax), al.addprefix(Az, 0), al.rmprefix(A + b"p:q|"), al.rmprefix(Ax), al.rule(Ax, "path2"), al.rule(A, "path1"), al.LB_REPEAT, al.CB_KNOWN, al.move(Ab, 0), al.delete(0), al.REOPEN, al.clear("domain", {Ax: "path2"})]
         sp.append(Space(Cfg("domain"), cops, 4 if thorough else 3, roots=[al.R0, al.R1], name="core/domain"))
         return sp
 
